@@ -6,7 +6,7 @@ from vlib import coq_value, coq_hex, jb, js, ji, jts, jo, ja
 import gen
 
 ID = "C25"
-THEOREMS = ["C25_int", "C25_int_default_base", "C25_int_min_refuted", "C25_ntoa_aton", "C25_aton_ntoa", "C25_aton_ntoa_accepted", "C25_ntop_pton_v4",
+THEOREMS = ["C25_int", "C25_int_default_base", "C25_int_min_roundtrips", "C25_ntoa_aton", "C25_aton_ntoa", "C25_aton_ntoa_accepted", "C25_ntop_pton_v4",
             "C25_pton_ntop_accepted_v4", "C25_to6_to4_accepted",
             "C25_ipv6_text", "C25_ntop_pton_v6", "C25_ipv4_mapped", "C25_entries", "C25_flatten",
             "C25_flatten_single_char_separator", "C25_flatten_bordered_separator_refuted", "C25_unix_from_to",
@@ -616,9 +616,6 @@ def known_matcher(entry, case, out):
     kind = m.get("kind")
     f = case.get("f", {})
     x = case.get("x")
-    if kind == "format_int_min":
-        return f.get("fn") == "format_int" and isinstance(x, dict) and x.get("i") == str(I64_MIN) \
-            and isinstance(out, dict) and "panic" in (out.get("fwd") or {})
     if kind == "flatten_bordered_separator":
         if f.get("fn") != "flatten":
             return False
@@ -646,8 +643,8 @@ MANIFEST = {
                  "timestamps and the calendar) on hand models of the eight stdlib conversion pairs + differential "
                  "correspondence of every single call against the compiled VRL functions (arguments runtime-typed)",
     "text": "Closed, axiom-free Coq theorems, one family per pair, each over the pair's whole domain: format_int/parse_int for every "
-            "base 2..36 and every i64 except i64::MIN (digit loop ends within its 64 rounds; default-base pair too), where "
-            "i64::MIN is proved to panic in the model (known finding, reproduced on the implementation); ip_ntoa/ip_aton for "
+            "base 2..36 and every i64, i64::MIN included (digit loop ends within its 64 rounds; default-base pair too; the former "
+            "i64::MIN panic is repaired in 12bd79c and its witness proved to round-trip); ip_ntoa/ip_aton for "
             "every u32 and every dotted quad; ip_ntop/ip_pton for all 4- and 16-byte strings, through a model of std's IPv4/IPv6 "
             "Display and FromStr (RFC 5952 '::' compression, every zero-run shape, embedded IPv4) with parse(print a) = a for "
             "all 2^128 addresses; ip_to_ipv6/ipv6_to_ipv4 on all IPv4-mapped addresses, both compositions; "
@@ -665,8 +662,7 @@ MANIFEST = {
             "formatter/parser used by the four layouts are modelled from their documented/observed behaviour; the Gregorian "
             "calendar by the civil-from-days formulas rather than chrono's tables); harness JSON codec; Python generator. Keys "
             "and separators are byte strings (valid UTF-8 in every generated case; from_utf8_lossy is the identity there). The "
-            "harness is built with overflow checks on (format_int(i64::MIN) panics only there; in release builds -x wraps and "
-            "the text is right). Program timezone is UTC in every case. An empty separator is outside the flatten theorem and "
+            "harness is built with overflow checks on. Program timezone is UTC in every case. An empty separator is outside the flatten theorem and "
             "is never generated: unflatten with \"\" and two or more keys recurses forever (stack overflow). No axioms "
             "(Print Assumptions: closed for every theorem).",
     "design_ref": "DESIGN.md section 5 C25",
